@@ -1092,6 +1092,42 @@ pub enum Op {
     InlineImage { image: Arc<ImageXObject> },
 }
 
+/// `/name cs`, `/name CS`: the colour space named in the /ColorSpace resources (if it is one)
+fn clone_named_color_space(name: &Name, cloner: &mut impl Cloner, old_resources: &Resources, resources: &mut Resources) -> Result<()> {
+    if !resources.color_spaces.contains_key(name) {
+        if let Some(cs) = old_resources.color_spaces.get(name) {
+            resources.color_spaces.insert(name.clone(), cs.deep_clone(cloner)?);
+        }
+    }
+    Ok(())
+}
+/// `... /name scn`, `... /name SCN`: the pattern named by the last operand
+fn clone_named_pattern(color: &Color, cloner: &mut impl Cloner, old_resources: &Resources, resources: &mut Resources) -> Result<()> {
+    if let Color::Other(ref args) = *color {
+        if let Some(Primitive::Name(ref name)) = args.last() {
+            let name = Name(name.clone());
+            if !resources.pattern.contains_key(&name) {
+                if let Some(p) = old_resources.pattern.get(&name) {
+                    resources.pattern.insert(name, p.deep_clone(cloner)?);
+                }
+            }
+        }
+    }
+    Ok(())
+}
+/// `/tag /name BDC`, `/tag /name DP`: the property list named in the /Properties resources
+fn clone_named_properties(properties: &Option<Primitive>, cloner: &mut impl Cloner, old_resources: &Resources, resources: &mut Resources) -> Result<()> {
+    if let Some(Primitive::Name(ref name)) = *properties {
+        let name = Name(name.clone());
+        if !resources.properties.contains_key(&name) {
+            if let Some(p) = old_resources.properties.get(&name) {
+                resources.properties.insert(name, p.deep_clone(cloner)?);
+            }
+        }
+    }
+    Ok(())
+}
+
 pub fn deep_clone_op(op: &Op, cloner: &mut impl Cloner, old_resources: &Resources, resources: &mut Resources) -> Result<Op> {
     match *op {
         Op::GraphicsState { ref name } => {
@@ -1103,10 +1139,28 @@ pub fn deep_clone_op(op: &Op, cloner: &mut impl Cloner, old_resources: &Resource
             Ok(Op::GraphicsState { name: name.clone() })
         }
         Op::MarkedContentPoint { ref tag, ref properties } => {
+            clone_named_properties(properties, cloner, old_resources, resources)?;
             Ok(Op::MarkedContentPoint { tag: tag.clone(), properties: properties.deep_clone(cloner)? })
         }
         Op::BeginMarkedContent { ref tag, ref properties } => {
+            clone_named_properties(properties, cloner, old_resources, resources)?;
             Ok(Op::BeginMarkedContent { tag: tag.clone(), properties: properties.deep_clone(cloner)? })
+        }
+        Op::FillColorSpace { ref name } => {
+            clone_named_color_space(name, cloner, old_resources, resources)?;
+            Ok(Op::FillColorSpace { name: name.clone() })
+        }
+        Op::StrokeColorSpace { ref name } => {
+            clone_named_color_space(name, cloner, old_resources, resources)?;
+            Ok(Op::StrokeColorSpace { name: name.clone() })
+        }
+        Op::FillColor { ref color } => {
+            clone_named_pattern(color, cloner, old_resources, resources)?;
+            Ok(Op::FillColor { color: color.clone() })
+        }
+        Op::StrokeColor { ref color } => {
+            clone_named_pattern(color, cloner, old_resources, resources)?;
+            Ok(Op::StrokeColor { color: color.clone() })
         }
         Op::TextFont { ref name, size } => {
             if !resources.fonts.contains_key(name) {
